@@ -109,7 +109,14 @@ def u_pkg_neg_n(package):
         yield ({**row, 'n': -row['n']} for row in res)
 
 
-USER = {'u_bump_n': ('row', u_bump_n), 'u_upper_s': ('row', u_upper_s),
+def u_arr_append(row):
+    # edits a NESTED cell value in place (a shallow row copy upstream would share it)
+    if isinstance(row.get('arr'), list):
+        row['arr'].append(9)
+    row['n'] = row['n'] + 0
+
+
+USER = {'u_arr_append': ('row', u_arr_append), 'u_bump_n': ('row', u_bump_n), 'u_upper_s': ('row', u_upper_s),
         'u_rows_drop_odd': ('rows', u_rows_drop_odd), 'u_rows_twice_n': ('rows', u_rows_twice_n),
         'u_pkg_title': ('package', u_pkg_title), 'u_pkg_neg_n': ('package', u_pkg_neg_n)}
 SHAPES = ['function', 'lambda', 'bound_method', 'partial', 'callable_object']
